@@ -30,9 +30,18 @@ type c16Case struct {
 	Src   string   `json:"src"`
 	Valid bool     `json:"valid"`
 	Toks  []c16Tok `json:"toks,omitempty"`
+	// Nested parse: at the listed interceptor invocations (0-based, counted over
+	// the outer parse only) the interceptor builds a second parser from the
+	// *same* builder and parses NestedSrc to the end before it lets the outer
+	// parse continue (a plugin expanding an embedded snippet).  Both parsers'
+	// answers must keep reflecting their own source.
+	NestedSrc  string   `json:"nested_src,omitempty"`
+	NestedToks []c16Tok `json:"nested_toks,omitempty"`
+	NestedAt   []int    `json:"nested_at,omitempty"`
 }
 
 type c16Obs struct {
+	nested    bool
 	kind      string
 	line, col int
 	lit       string
@@ -40,8 +49,13 @@ type c16Obs struct {
 	ctx       parser.ContextType
 }
 
-func c16Run(src string, m Mode) (obs []c16Obs, final parser.ContextType, finalInFn bool, depth int, panicked interface{}, hung bool) {
+func c16Run(c c16Case, m Mode) (obs []c16Obs, final parser.ContextType, finalInFn bool, depth int, nestedBad string, panicked interface{}, hung bool) {
+	src := c.Src
 	done := make(chan struct{})
+	at := map[int]bool{}
+	for _, i := range c.NestedAt {
+		at[i] = true
+	}
 	go func() {
 		defer func() {
 			panicked = recover()
@@ -54,14 +68,33 @@ func c16Run(src string, m Mode) (obs []c16Obs, final parser.ContextType, finalIn
 		if m.Smart {
 			pb.WithSmartSemicolon(true)
 		}
-		pb.UseStatementInterceptor(func(p *parser.Parser, next func() ast.Statement) ast.Statement {
+		level, outerCalls := 0, 0
+		observe := func(kind string, p *parser.Parser) {
 			t := p.CurrentToken
-			obs = append(obs, c16Obs{"stmt", t.Start.Line, t.Start.Column, t.Literal, p.IsInFunction(), p.CurrentContext()})
+			obs = append(obs, c16Obs{level > 0, kind, t.Start.Line, t.Start.Column, t.Literal, p.IsInFunction(), p.CurrentContext()})
+			if level > 0 {
+				return
+			}
+			k := outerCalls
+			outerCalls++
+			if at[k] && c.NestedSrc != "" {
+				level++
+				np := pb.Build(c.NestedSrc)
+				np.ParseProgram()
+				if np.CurrentContext() != parser.GlobalContext || np.IsInFunction() || np.VerifContextDepth() != 1 {
+					nestedBad = fmt.Sprintf("nested parser after ParseProgram: CurrentContext()=%d IsInFunction()=%v depth=%d", np.CurrentContext(), np.IsInFunction(), np.VerifContextDepth())
+				}
+				level--
+				// the outer parser's answers must not have moved
+				obs = append(obs, c16Obs{false, kind + "(after nested parse)", t.Start.Line, t.Start.Column, t.Literal, p.IsInFunction(), p.CurrentContext()})
+			}
+		}
+		pb.UseStatementInterceptor(func(p *parser.Parser, next func() ast.Statement) ast.Statement {
+			observe("stmt", p)
 			return next()
 		})
 		pb.UseExpressionInterceptor(func(p *parser.Parser, next func() ast.Expression) ast.Expression {
-			t := p.CurrentToken
-			obs = append(obs, c16Obs{"expr", t.Start.Line, t.Start.Column, t.Literal, p.IsInFunction(), p.CurrentContext()})
+			observe("expr", p)
 			return next()
 		})
 		p := pb.Build(src)
@@ -83,7 +116,7 @@ func c16Check(c c16Case, rec *evid.Recorder) *Fail {
 	}
 	for _, m := range modes {
 		rec.Eval()
-		obs, final, finalInFn, depth, pv, hung := c16Run(c.Src, m)
+		obs, final, finalInFn, depth, nestedBad, pv, hung := c16Run(c, m)
 		if hung {
 			return failf("parse did not return (mode %+v)\nsrc %q", m, c.Src).tag("hang")
 		}
@@ -93,6 +126,9 @@ func c16Check(c c16Case, rec *evid.Recorder) *Fail {
 		if final != parser.GlobalContext || finalInFn || depth != 1 {
 			return failf("after ParseProgram (mode %+v): CurrentContext()=%d IsInFunction()=%v context depth=%d; want global / false / 1\nsrc %q", m, final, finalInFn, depth, c.Src)
 		}
+		if nestedBad != "" {
+			return failf("%s\nnested src %q\nouter src %q", nestedBad, c.NestedSrc, c.Src)
+		}
 		if !c.Valid {
 			continue
 		}
@@ -100,11 +136,21 @@ func c16Check(c c16Case, rec *evid.Recorder) *Fail {
 		for _, t := range c.Toks {
 			idx[[2]int{t.Line, t.Col}] = t.Ctx
 		}
+		nidx := map[[2]int]string{}
+		for _, t := range c.NestedToks {
+			nidx[[2]int{t.Line, t.Col}] = t.Ctx
+		}
 		deep, inFuncExprArg := false, false
+		nestedSeen := false
 		for _, o := range obs {
 			ctx, ok := idx[[2]int{o.line, o.col}]
+			if o.nested {
+				nestedSeen = true
+				ctx, ok = nidx[[2]int{o.line, o.col}]
+				o.kind = "nested-parser " + o.kind
+			}
 			if !ok {
-				return failf("interceptor saw current token %q at %d:%d, which is not the start of a token of the source\nsrc %q", o.lit, o.line, o.col, c.Src)
+				return failf("%s interceptor saw current token %q at %d:%d, which is not the start of a token of the source\nsrc %q\nnested src %q", o.kind, o.lit, o.line, o.col, c.Src, c.NestedSrc)
 			}
 			wantFn := false
 			nf := 0
@@ -115,7 +161,7 @@ func c16Check(c c16Case, rec *evid.Recorder) *Fail {
 				}
 			}
 			if o.inFn != wantFn {
-				return failf("%s interceptor at token %q %d:%d: IsInFunction()=%v but the token's nesting is %q (B=block, F=function body)\nsrc %q", o.kind, o.lit, o.line, o.col, o.inFn, ctx, c.Src)
+				return failf("%s interceptor at token %q %d:%d: IsInFunction()=%v but the token's nesting is %q (B=block, F=function body)\nsrc %q\nnested src %q at %v", o.kind, o.lit, o.line, o.col, o.inFn, ctx, c.Src, c.NestedSrc, c.NestedAt)
 			}
 			switch {
 			case ctx == "":
@@ -140,6 +186,9 @@ func c16Check(c c16Case, rec *evid.Recorder) *Fail {
 		}
 		if deep && inFuncExprArg {
 			rec.NonTrivial(c.Src)
+		}
+		if nestedSeen {
+			rec.Class("nested-parse-from-same-builder")
 		}
 		rec.ClassN("interceptor-invocations", len(obs))
 	}
@@ -182,6 +231,27 @@ func c16Gen(t *rapid.T, rec *evid.Recorder) c16Case {
 		c.Valid = false
 		return c
 	}
+	c.Toks = c16Table(toks)
+	if r.Intn(3, "nested") == 0 {
+		// a snippet with its own nesting, parsed by a second parser of the same builder
+		ng := &gen.Syn{R: r, MaxDepth: 2, StmtDepth: 1 + r.Intn(3, "nsdepth")}
+		ntree := ng.Program(2)
+		inner := ir.N(ir.Block, "", ir.N(ir.Block, "", ng.Stmt(1, false, 2)), ir.N(ir.ExprStmt, "", ng.FuncExpr(1)))
+		if r.Bool("nfunc") {
+			ntree.Kids = append(ntree.Kids, &ir.Node{K: ir.FuncDecl, Op: "snip", Params: []string{}, Kids: []*ir.Node{inner}})
+		} else {
+			ntree.Kids = append(ntree.Kids, inner)
+		}
+		nsrc, ntoks := layout.Source(r, ntree, layout.Options{Random: true, ASI: true})
+		c.NestedSrc, c.NestedToks = nsrc, c16Table(ntoks)
+		for i, n := 0, 1+r.Intn(3, "nnested"); i < n; i++ {
+			c.NestedAt = append(c.NestedAt, r.Intn(40, "nestedat"))
+		}
+	}
+	return c
+}
+
+func c16Table(toks []*layout.Tok) (out []c16Tok) {
 	for _, tk := range toks {
 		if tk.Kind == layout.EOF || tk.Rendered == "" {
 			continue
@@ -194,9 +264,9 @@ func c16Gen(t *rapid.T, rec *evid.Recorder) c16Case {
 				ctx += "B"
 			}
 		}
-		c.Toks = append(c.Toks, c16Tok{tk.Line, tk.Col, ctx})
+		out = append(out, c16Tok{tk.Line, tk.Col, ctx})
 	}
-	return c
+	return out
 }
 
 var c16Witnesses = []c16Case{
